@@ -540,6 +540,11 @@ func (env *Env) elabCall(x *ECall) Val {
 		v := arg(0)
 		e.regHeap("G.$held", "(Array Int Bool)")
 		return Val{T: app("select", e.get(env.St, "G.$held"), v.T), Ty: tyBool}
+	case "nolocks":
+		// nolocks(): the current goroutine holds no lock at all (ghost)
+		e.regHeap("G.$held", "(Array Int Bool)")
+		e.regHeap("G.$rheld", "(Array Int Bool)")
+		return Val{T: and(eq(e.get(env.St, "G.$held"), noLocks), eq(e.get(env.St, "G.$rheld"), noLocks)), Ty: tyBool}
 	case "addr":
 		// addr(x.f): the ref of an embedded struct field (sub-object)
 		sel, ok := x.Args[0].(*ESel)
